@@ -1,5 +1,6 @@
 // Harness for C15 (task queue): area `forced` (forced schedules, compared with the Lean model through drv_c15) and
-// area `stress` (random stress in child processes, judged on the event log).
+// area `stress` (random stress in child processes, judged on the event log), area `recovery` (errs.Recovery called
+// directly) and area `probe` (situations outside the domain, transcribed and not judged).
 package main
 
 import (
@@ -13,5 +14,10 @@ func main() {
 		stressChild(os.Args[2:])
 		return
 	}
-	hx.Main(map[string]hx.Area{"forced": &forcedArea{}, "stress": stressArea{}})
+	if len(os.Args) >= 3 && os.Args[1] == "child-probe" {
+		probeChild(os.Args[2])
+		return
+	}
+	hx.Main(map[string]hx.Area{"forced": &forcedArea{}, "stress": stressArea{}, "recovery": recoveryArea{},
+		"probe": probeArea{}})
 }
